@@ -139,38 +139,38 @@ func c34Scenarios() []*c34Scenario {
 			name: "two-v4",
 			ops: c34Cat([]c34Op{c34Upd("v4a"), c34Upd("v4b"), c34Upd("v4a", "v4b"), c34Upd("v4b", "v4a", "v4b"), c34Upd(), c34OpRErrV},
 				c34SCOps("v4a", "v4b"), []c34Op{c34OpTimerV, c34OpExitIdleV, c34OpPickV}),
-			depthQ: 8, depthT: 11, minState: 200,
+			depthQ: 8, depthT: 14, minState: 200,
 		},
 		{ // two families, three addresses, interleaving changes the order; endpoints form with a cross-endpoint duplicate
 			name: "dual-stack-3",
 			ops: c34Cat([]c34Op{c34Upd("v4a", "v4b", "v6a"), c34UpdE([]string{"v6a", "v4a"}, []string{"v4b", "v6a"}), c34Upd("v6a")},
 				c34SCOps("v4a", "v4b", "v6a"), []c34Op{c34OpTimerV, c34OpExitIdleV}),
-			depthQ: 8, depthT: 11, minState: 200,
+			depthQ: 8, depthT: 14, minState: 200,
 		},
 		{ // the same three addresses, starting after a complete failed pass (sticky TF, steady-state retries)
 			name: "dual-stack-3-after-failed-pass",
 			pre:  []string{"update[v4a,v4b,v6a]", "v4a.connecting", "v4a.tf", "v6a.connecting", "v6a.tf", "v4b.connecting", "v4b.tf"},
 			ops: c34Cat([]c34Op{c34Upd("v4a", "v4b", "v6a"), c34Upd("v6a", "v4b"), c34OpRErrV},
 				c34SCOps("v4a", "v4b", "v6a"), []c34Op{c34OpTimerV}),
-			depthQ: 7, depthT: 10, minState: 100,
+			depthQ: 7, depthT: 13, minState: 100,
 		},
 		{ // IPv6 first, second IPv6 address, endpoints form with several addresses per endpoint, shuffled list
 			name: "v6-first",
 			ops: c34Cat([]c34Op{c34UpdE([]string{"v6a", "v6b"}, []string{"v4a"}), c34UpdShuffled("v4a", "v6b", "v6a"), c34Upd("v6b", "v6b", "v4a")},
 				c34SCOps("v6a", "v6b", "v4a"), []c34Op{c34OpTimerV}),
-			depthQ: 7, depthT: 10, minState: 100,
+			depthQ: 7, depthT: 13, minState: 100,
 		},
 		{ // steady-state retry mode with two subchannels (A61: TF is reported again after every 2 further failures)
 			name: "two-v4-steady-state-retries",
 			pre:  []string{"update[v4a,v4b]", "v4a.connecting", "v4a.tf", "v4b.connecting", "v4b.tf", "v4a.idle", "v4a.connecting", "v4b.idle", "v4b.connecting"},
 			ops:  c34Cat([]c34Op{c34Upd("v4a", "v4b"), c34OpRErrV}, c34SCOps("v4a", "v4b"), []c34Op{c34OpTimerV}),
-			depthQ: 8, depthT: 11, minState: 50,
+			depthQ: 8, depthT: 14, minState: 50,
 		},
 		{ // stale (in-flight) updates of subchannels the balancer has already shut down
 			name: "stale-updates",
 			ops: c34Cat([]c34Op{c34Upd("v4a"), c34Upd("v4b"), c34Upd("v4a", "v4b")},
 				c34SCOps("v4a", "v4b"), c34DeadOps(), []c34Op{c34OpTimerV}),
-			depthQ: 8, depthT: 10, useDead: true, minState: 200,
+			depthQ: 8, depthT: 13, useDead: true, minState: 200,
 		},
 	}
 }
